@@ -4,6 +4,7 @@ package storeh
 
 import (
 	"math/rand"
+	"sort"
 
 	"github.com/btcsuite/btcd/blockchain"
 	"github.com/btcsuite/btcd/chainhash/v2"
@@ -352,7 +353,8 @@ type Gen struct {
 	Chain  []int64        // shadow block chain (tokens by height), best effort
 	FChain int            // shadow number of filter entries
 	nextF  int64
-	MaxTok int64 // fresh block tokens are drawn from 1..MaxTok (0 = whole pool)
+	MaxTok int64          // fresh block tokens are drawn from 1..MaxTok (0 = whole pool)
+	Ever   map[int64]bool // every block token ever handed to WriteHeaders in this history
 }
 
 func (g *Gen) fresh() int64 {
@@ -374,6 +376,14 @@ func (g *Gen) someHash() int64 {
 	switch {
 	case x < 6 && len(g.Chain) > 0:
 		return g.Chain[g.R.Intn(len(g.Chain))]
+	case x < 8 && len(g.Ever) > 0:
+		// a hash written earlier (possibly rolled back since)
+		keys := make([]int64, 0, len(g.Ever))
+		for t := range g.Ever {
+			keys = append(keys, t)
+		}
+		sort.Slice(keys, func(i, j int) bool { return keys[i] < keys[j] })
+		return keys[g.R.Intn(len(keys))]
 	case x < 9:
 		return 1 + g.R.Int63n(int64(len(g.E.Pool.Headers)))
 	default:
@@ -445,6 +455,10 @@ func (g *Gen) Next(malformed bool) Op {
 		for i := 0; i < k; i++ {
 			t := g.fresh()
 			g.Used[t] = true
+			if g.Ever == nil {
+				g.Ever = map[int64]bool{}
+			}
+			g.Ever[t] = true
 			ht := h + int64(i)
 			if malformed && r.Intn(6) == 0 {
 				ht += int64(1 + r.Intn(3)) // gap / wrong height
@@ -597,6 +611,21 @@ func FullDump(g *Gen) []Op {
 	}
 	for _, t := range g.Chain {
 		ops = append(ops, Op{Kind: "qheightof", X: t, WF: true}, Op{Kind: "qfhash", X: t, WF: true})
+	}
+	// hashes that were written once and rolled back since must not be found
+	onChain := map[int64]bool{}
+	for _, t := range g.Chain {
+		onChain[t] = true
+	}
+	var gone []int64
+	for t := range g.Ever {
+		if !onChain[t] {
+			gone = append(gone, t)
+		}
+	}
+	sort.Slice(gone, func(i, j int) bool { return gone[i] < gone[j] })
+	for _, t := range gone {
+		ops = append(ops, Op{Kind: "qheightof", X: t, WF: true}, Op{Kind: "qbhash", X: t, WF: true})
 	}
 	return ops
 }
